@@ -74,6 +74,23 @@ CLAIMED['C12'] = prog_claim('Here: `for x in &coll { body }` over Vec and LTerm-
 CLAIMED['C13'] = prog_claim('Here: match / matche / matcha / matchu expressions (alternatives, repeated names, wildcards, literal/list/improper/empty patterns, shadowing, empty bodies) translated by the real proc-macro.', 'DESIGN.md §3 C13')
 CLAIMED['C14'] = prog_claim('Here: the clause grammar and term syntax (literals of every kind, nested proper/improper lists, `_`, tuple compounds, fresh, conde, closure, true/false) translated by the real proc-macros.', 'DESIGN.md §3 C14')
 CLAIMED['C15'] = prog_claim('Here: the scoping templates (shadowing, same-named variables in sibling scopes, pattern variables, recursive relations introducing fresh variables); alpha-renaming invariance is implied by agreement with the reference, which is name-free.', 'DESIGN.md §3 C15')
+CLAIMED['C04'] = prog_claim('Here: every listed permutation of the goals of a conjunction / of the clauses of a disjunction (eq, diseq, finite-domain constraints, member, conde) is its own template and must give exactly the reference answer multiset of the BASE order.', 'DESIGN.md §3 C04')
+CLAIMED['C07'] = prog_claim('Here (bounded form of fairness): disjunctions mixing finite goals with infinite producers (always, loop) and silent divergers (never); every answer of every productive branch must occur among the first N answers and within the step bound. A time-out of the native replay (watchdog) or a crash counts as reproduction.', 'DESIGN.md §3 C07')
+CLAIMED['C09'] = prog_claim('Here: every template function calls next() twice more after the first None (fused); prefix templates take the first N answers of infinite streams (lazy); determinism: each program is run twice on every path, once with hash-based stores iterated in insertion order and once with a solver-chosen permutation/rotation of that order, and the two answer SEQUENCES must coincide (native replay: 400 runs in one process must agree).', 'DESIGN.md §3 C09')
+CLAIMED['C16'] = prog_claim('Here: CLP(FD) programs over small signed interval and sparse domains (ltefd, ltfd, plusfd, minusfd, timesfd, diseqfd, distinctfd; operand aliasing; symbolic constants; constraints before/after domains and unifications) through propagation and labeling, compared as multisets of ground answers with brute-force enumeration of the domain product: no answer violates a constraint.', 'DESIGN.md §3 C16')
+CLAIMED['C17'] = prog_claim('Same CLP(FD) templates as C16: multiset equality with the brute-force enumeration also shows that every solution (list-shaped query terms, hidden variables) is returned, and exactly once.', 'DESIGN.md §3 C17')
+CLAIMED['C20'] = prog_claim('Here: the crate\'s tuple compound (a, b): field-wise unification, compound versus list/literal, occurs check through fields, disequality, deep walk* of both fields at reification, nesting; the reference treats a compound as a tagged constructor (the tagged-list reading). #[compound] structs and Option fields are outside this check.', 'DESIGN.md §3 C20')
+CLAIMED['C21'] = dict(
+    level='other',
+    text='Symbolic execution of the MIR of LTerm\'s PartialEq and Hash implementations (with LValue, VarID and the tuple compound) and of the list API '
+         '(LTermIter, head/tail, is_list/is_empty/is_improper, Index, contains, from_vec/from_array/collect/improper_from_vec, extend) on lazily initialised symbolic terms. '
+         'z3 decides per path that == coincides with structural equality in both argument orders, that equal terms write identical hash transcripts, and that every list '
+         'operation agrees with the element sequence read off the term.',
+    note=MIRSYM_NOTE + 'Bound: term depth <= 2 for ==/hash, lists of <= 3 cells with elements of depth <= 1 (including [] elements, nested lists, improper tails); Display is outside.',
+    technique='symbolic execution of rustc MIR with lazily initialised term inputs; z3 decides equality/hash/list laws per path; native replay',
+    engine='mirsym', design='DESIGN.md §3 C21')
+CLAIMED['C22'] = prog_claim('Here: programs run with a generated User type that counts with_constraint / take_constraint / process_extension calls; probe goals between the goals expose [with - take - store size, number of extensions, size of the last extension] which must be [0, number of successful unifications so far, bindings added by the last one].', 'DESIGN.md §3 C22')
+CLAIMED['C23'] = prog_claim('Here: well-formed programs of every family (CLP(Z) with disequalities, CLP(FD) with aliased and hidden variables, project in closures, for, matching, compounds, committed choice, dfs); every panic site reached on a feasible path is reported with concrete parameters and replayed.', 'DESIGN.md §3 C23')
 CLAIMED['C24'] = prog_claim('Here: member, member1, append, rember, permute, distinct, cons, first, rest, empty in several argument modes on lists of symbolic integers versus reference definitions written from the documentation.', 'DESIGN.md §3 C24')
 
 ALL = ['C%02d' % i for i in range(1, 25)]
